@@ -201,7 +201,12 @@ func postBlock(fw *formatWriter, source []byte, cursor *commonmark.Cursor) {
 			fw.s("\n")
 		}
 	case commonmark.ListItemKind:
-		fw.s("\n")
+		if fw.startedLine || !b.IsTightList() {
+			// An item of a tight list that ends in a nested list
+			// has already ended its last line;
+			// a blank line there would make the list loose.
+			fw.s("\n")
+		}
 	case commonmark.IndentedCodeBlockKind, commonmark.FencedCodeBlockKind:
 		c := [1]byte{codeFenceChar(source, b)}
 		for i, n := 0, codeFenceLength(source, b); i < n; i++ {
